@@ -140,6 +140,29 @@ func tailGuest() []byte {
 	return m.Encode()
 }
 
+// pairLib / pairApp: a guest of TWO modules.  lib.work(n) loops n times and returns 7; app.run(n) calls
+// lib.work(n) and then the host function env.peek, which reads byte 16 of the memory of the module it is
+// handed (app: 0xAA, lib: 0xBB); run = work + peek.  The script also closes lib and runs app again.
+func pairLib() []byte {
+	m := &wasmb.Module{Mem: &wasmb.Limits{Min: 1, Max: 2, HasMax: true}}
+	i32 := []wasmb.ValType{wasmb.I32}
+	m.Datas = []wasmb.Data{{Offset: wasmb.ConstI32(16), Bytes: []byte{0xBB}}}
+	c := (&wasmb.Code{}).Loop(wasmb.BlockVoid).LocalGet(0).I32Const(1).I32Sub().LocalTee(0).I32Const(0).I32GtS().BrIf(0).End().I32Const(7)
+	m.AddFunc(i32, i32, nil, c.B, "work")
+	return m.Encode()
+}
+
+func pairApp() []byte {
+	m := &wasmb.Module{}
+	i32 := []wasmb.ValType{wasmb.I32}
+	work := m.ImportFunc("lib", "work", i32, i32)
+	peek := m.ImportFunc("env", "peek", nil, i32)
+	m.Mem = &wasmb.Limits{Min: 1, Max: 2, HasMax: true}
+	m.Datas = []wasmb.Data{{Offset: wasmb.ConstI32(16), Bytes: []byte{0xAA}}}
+	m.AddFunc(i32, i32, nil, (&wasmb.Code{}).LocalGet(0).Call(work).Call(peek).I32Add().B, "run")
+	return m.Encode()
+}
+
 var tailFns = []string{"tdirect", "tindirect", "tmutual", "mvblock"}
 
 type tailStep struct {
@@ -154,7 +177,7 @@ type callStep struct {
 }
 
 // runOne executes the script under one runtime description and returns the canonical trace.
-func runOne(engine string, d rtDesc, shared wazero.CompilationCache, dir string, bin []byte, p *plan.Plan, script []callStep, tails []tailStep) (trace []string, err error) {
+func runOne(engine string, d rtDesc, shared wazero.CompilationCache, dir string, bin []byte, p *plan.Plan, script []callStep, tails []tailStep, pair bool) (trace []string, err error) {
 	ctx := context.Background()
 	var cfg wazero.RuntimeConfig
 	if engine == "interpreter" {
@@ -233,7 +256,12 @@ func runOne(engine string, d rtDesc, shared wazero.CompilationCache, dir string,
 				panic(fmt.Sprintf("simstring-%d", hcount))
 			}
 			stack[0] = uint64(uint32(v*3 + tag))
-		}), []api.ValueType{api.ValueTypeI32, api.ValueTypeI32}, []api.ValueType{api.ValueTypeI32}).Export("h").Instantiate(cctx)
+		}), []api.ValueType{api.ValueTypeI32, api.ValueTypeI32}, []api.ValueType{api.ValueTypeI32}).Export("h").
+		NewFunctionBuilder().
+		WithGoModuleFunction(api.GoModuleFunc(func(ctx context.Context, mod api.Module, stack []uint64) {
+			b, _ := mod.Memory().ReadByte(16)
+			stack[0] = uint64(b)
+		}), nil, []api.ValueType{api.ValueTypeI32}).Export("peek").Instantiate(cctx)
 	if err != nil {
 		return nil, err
 	}
@@ -287,6 +315,38 @@ func runOne(engine string, d rtDesc, shared wazero.CompilationCache, dir string,
 				line += "error: " + strings.SplitN(err.Error(), "\n", 2)[0]
 			} else {
 				line += fmt.Sprint(int32(uint32(res[0])))
+			}
+			trace = append(trace, line)
+		}
+	}
+	if pair {
+		lcm, err := rt.CompileModule(cctx, pairLib())
+		if err != nil {
+			return nil, fmt.Errorf("compile pair lib: %w", err)
+		}
+		lib, err := rt.InstantiateModule(cctx, lcm, wazero.NewModuleConfig().WithName("lib"))
+		if err != nil {
+			return nil, fmt.Errorf("instantiate pair lib: %w", err)
+		}
+		acm, err := rt.CompileModule(cctx, pairApp())
+		if err != nil {
+			return nil, fmt.Errorf("compile pair app: %w", err)
+		}
+		app, err := rt.InstantiateModule(cctx, acm, wazero.NewModuleConfig().WithName("app"))
+		if err != nil {
+			return nil, fmt.Errorf("instantiate pair app: %w", err)
+		}
+		for step := 0; step < 3; step++ {
+			if step == 2 {
+				lib.Close(ctx) // its exported function stays callable through app's import
+				trace = append(trace, "pair: lib closed")
+			}
+			res, err := app.ExportedFunction("run").Call(cctx, 3)
+			line := fmt.Sprintf("pair.app.run(3) #%d -> ", step)
+			if err != nil {
+				line += "error: " + strings.SplitN(err.Error(), "\n", 2)[0]
+			} else {
+				line += fmt.Sprintf("%#x", uint32(res[0]))
 			}
 			trace = append(trace, line)
 		}
@@ -371,7 +431,11 @@ func (c12) Run(t *tape.Tape, cfg sim.Config) (res sim.Result) {
 		}
 		res.Stat("probe.tail_call_loops", int64(len(tails)))
 	}
-	base, err := runOne(cfg.Engine, rtDesc{Cache: "none", Alloc: "default", Listen: "none", MemLimit: memLimit}, nil, "", bin, p, script, tails)
+	pair := t.Chance(1, 3)
+	if pair {
+		res.Stat("probe.two_module_guest", 1)
+	}
+	base, err := runOne(cfg.Engine, rtDesc{Cache: "none", Alloc: "default", Listen: "none", MemLimit: memLimit}, nil, "", bin, p, script, tails, pair)
 	baseErr := err
 	if baseErr != nil {
 		res.Stat("probe.baseline_rejects_module", 1)
@@ -459,7 +523,7 @@ func (c12) Run(t *tape.Tape, cfg sim.Config) (res sim.Result) {
 		res.Stat("probe.caches_first_used_by_a_runtime_with_older_features", 1)
 	}
 	for i, d := range descs {
-		tr, err := runOne(cfg.Engine, d, shared, dir, bin, p, script, tails)
+		tr, err := runOne(cfg.Engine, d, shared, dir, bin, p, script, tails, pair)
 		res.Logf("runtime %d %s", i, d)
 		if (err != nil) != (baseErr != nil) {
 			res.Fail("config-changes-behaviour", "runtime %d %s (after %v): error %v; the baseline configuration (no cache, default allocator, no listeners, debug info on, custom sections dropped) gives error %v for the same module", i, d, descs[:i], err, baseErr)
